@@ -35,16 +35,18 @@ var c03Features = []featureCfg{
 
 const c03Bound = 7 * time.Second // max(server read/write 5 s, backend read 2 s, dial 1 s) + 1 s and some slack for the 3 s drip
 
-func goroutinesSettled() int {
+func goroutinesSettled() (int, map[string]int) {
 	min := 1 << 30
+	var sigs map[string]int
 	for i := 0; i < 3; i++ {
 		vh.Settle()
 		if n := vh.Goroutines(); n < min {
 			min = n
+			sigs = vh.GoroutineSigs()
 		}
 		time.Sleep(1300 * time.Millisecond)
 	}
-	return min
+	return min, sigs
 }
 
 func c03Run(e *vh.Env, c c03Case, o *vh.Out) {
@@ -68,7 +70,7 @@ func c03Run(e *vh.Env, c c03Case, o *vh.Out) {
 		return
 	}
 	time.Sleep(130 * time.Second)
-	base := goroutinesSettled()
+	base, baseSigs := goroutinesSettled()
 	do := func(kind string) bool {
 		if kind == "w" { // 31 s pass (longer than the breaker timeout and the unhealthy window)
 			time.Sleep(31 * time.Second)
@@ -140,7 +142,7 @@ func c03Run(e *vh.Env, c c03Case, o *vh.Out) {
 	}
 	o.Obs("probes_ok", 1)
 	time.Sleep(130 * time.Second)
-	now := goroutinesSettled()
+	now, nowSigs := goroutinesSettled()
 	for _, b := range bes {
 		if n := b.Inflight(); n != 0 {
 			o.Viol("C03|backend-request-stuck|"+sigc, fmt.Sprintf("%s: %d request(s) are still open at backend %s 200 s after the faults stopped", ctx, n, b.Name), nil)
@@ -148,7 +150,7 @@ func c03Run(e *vh.Env, c c03Case, o *vh.Out) {
 		}
 	}
 	if now > base {
-		o.Viol("C03|goroutine-leak|"+sigc, fmt.Sprintf("%s: %d goroutines before the faults, %d after everything has been idle for 130 s", ctx, base, now), map[string]any{"before": base, "after": now})
+		o.Viol("C03|goroutine-leak|"+sigc, fmt.Sprintf("%s: %d goroutines before the faults, %d after everything has been idle for 130 s", ctx, base, now), map[string]any{"before": base, "after": now, "new_goroutines": vh.GoroutineDiff(baseSigs, nowSigs), "gone_goroutines": vh.GoroutineDiff(nowSigs, baseSigs)})
 		return
 	}
 	o.Obs("goroutine_baselines_restored", 1)
